@@ -456,7 +456,7 @@ theorem dget_dset {κ ν} [DecidableEq κ] (l : List (κ × ν)) (k k' : κ) (v 
 for the DNS / NTP classes (`receive`) and for every modelled class (`receiveH`: no health write either) -/
 theorem C13_receive_blocked (d : Data) (now : Nat) (p : Payload) : d.receive false now p = (d, .f, [], p) := rfl
 
-theorem C13_receiveH_blocked (d : Data) (now : Nat) (hasDb : Bool) (p : Payload) :
+theorem C13_receiveH_blocked (d : Data) (now : Nat) (hasDb : Option Bool) (p : Payload) :
     d.receiveH false now hasDb p = ((d, .f, [], p), none) := rfl
 
 /-- what one `receive` call may do to the lifecycle layer: nothing, or — only if the object may act — a write of its OWN
@@ -502,7 +502,7 @@ theorem recvAt_spec (nn : NetNode) (u port proto : Nat) (p : Payload) :
         rw [dget_dset]; simp [hd]
       · intro s hs; simp at hs
     | true =>
-      rcases hr : d.receiveH true nn.now (dhas "database-client" nn.n.software) p with ⟨⟨d', r, out, p'⟩, hw⟩
+      rcases hr : d.receiveH true nn.now nn.dbVerdict p with ⟨⟨d', r, out, p'⟩, hw⟩
       simp only [hr]
       refine ⟨?_, by simp, by simp, by simp, by simp, ?_, ?_, ?_⟩
       · cases hw with
@@ -628,7 +628,7 @@ example :
 /-- **A reply is never answered** (so two servers cannot exchange packets without end — the defect repaired in round 3):
 whatever the class and its data, a payload that carries a reply (DNS reply, NTP reply, HTTP response) triggers no send and is
 left as it is. -/
-theorem C13_reply_never_answered (d : Data) (canAct : Bool) (now : Nat) (hasDb : Bool) (p : Payload) (hp : p.isReply = true) :
+theorem C13_reply_never_answered (d : Data) (canAct : Bool) (now : Nat) (hasDb : Option Bool) (p : Payload) (hp : p.isReply = true) :
     (d.receiveH canAct now hasDb p).1.2.2.1 = [] ∧ (d.receiveH canAct now hasDb p).1.2.2.2 = p := by
   cases canAct
   · exact ⟨rfl, rfl⟩
@@ -648,7 +648,7 @@ theorem C13_reply_never_answered (d : Data) (canAct : Bool) (now : Nat) (hasDb :
 
 /-- … and everything a modelled class sends in reaction to a payload is a reply, sent back along the session; at most one;
 the payload object afterwards is what it was or carries a reply -/
-theorem C13_sends_are_replies (d : Data) (canAct : Bool) (now : Nat) (hasDb : Bool) (p : Payload) :
+theorem C13_sends_are_replies (d : Data) (canAct : Bool) (now : Nat) (hasDb : Option Bool) (p : Payload) :
     (∀ x ∈ (d.receiveH canAct now hasDb p).1.2.2.1, x.1 = .session ∧ x.2.isReply = true) ∧
     (d.receiveH canAct now hasDb p).1.2.2.1.length ≤ 1 ∧
     ((d.receiveH canAct now hasDb p).1.2.2.2 = p ∨ (d.receiveH canAct now hasDb p).1.2.2.2.isReply = true) := by
@@ -734,15 +734,15 @@ theorem C13_ntp_receive (now : Nat) (t : Option Nat) (srv : Option Nat) (p : Pay
 
 /-- **Web server, status code.**  `GET` of the site root → 200; of a `users…` path → 200 with health GOOD when the database
 answers the query, 404 with health COMPROMISED when the query fails, 500 (health untouched, nothing cached) when no database
-connection can be had — a cached connection is reused, otherwise the node's database client (if installed) is asked once and
-the connection it hands out is cached; of any other path → 404. -/
-theorem C13_web_get_status (path : PathKind) (conn offer : Option Bool) (hasDb : Bool) :
-    webGet path conn offer hasDb =
+connection can be had — a cached connection is reused, otherwise the node's database client is asked once and the connection
+it hands out is cached; of any other path → 404. -/
+theorem C13_web_get_status (path : PathKind) (conn db : Option Bool) :
+    webGet path conn db =
       match path with
       | .root => (200, conn, none)
       | .other => (404, conn, none)
       | .users =>
-        match (match conn with | some ok => some ok | none => if hasDb then offer else none) with
+        match (match conn with | some ok => some ok | none => db) with
         | none => (500, none, none)
         | some true => (200, some true, some .good)
         | some false => (404, some false, some .compromised) := by
@@ -753,27 +753,23 @@ theorem C13_web_get_status (path : PathKind) (conn offer : Option Bool) (hasDb :
     cases conn with
     | some ok => cases ok <;> rfl
     | none =>
-      cases hasDb with
-      | false => rfl
-      | true =>
-        cases offer with
-        | none => rfl
-        | some ok => cases ok <;> rfl
+      cases db with
+      | none => rfl
+      | some ok => cases ok <;> rfl
 
 /-- **Web server, `receive`.**  A RUNNING web server answers every HTTP request with exactly one response, sent back along the
-session, and records its status in `response_codes_this_timestep`: GET as `C13_web_get_status` says, POST an empty response
-(status None), any other method 405; returns True iff the status is 200; health is written only by a `users…` GET that got a
-connection.  Anything that is not an HTTP request is refused without effect. -/
-theorem C13_web_server_receive (codes : List (Option Nat)) (conn offer : Option Bool) (now : Nat) (hasDb : Bool) (p : Payload) :
-    (Data.webServer codes conn offer).receiveH true now hasDb p =
+session, and records its status in `response_codes_this_timestep`: GET as `C13_web_get_status` says, POST and any other method
+405 (every response carries a status); returns True iff the status is 200; health is written only by a `users…` GET that got
+a connection.  Anything that is not an HTTP request is refused without effect. -/
+theorem C13_web_server_receive (codes : List Nat) (conn : Option Bool) (now : Nat) (db : Option Bool) (p : Payload) :
+    (Data.webServer codes conn).receiveH true now db p =
       match p with
       | .httpReq .get path _ =>
-        ((.webServer (codes ++ [some (webGet path conn offer hasDb).1]) (webGet path conn offer hasDb).2.1 offer,
-          Ret.ofBool ((webGet path conn offer hasDb).1 == 200), [(.session, .httpResp (some (webGet path conn offer hasDb).1))], p),
-         (webGet path conn offer hasDb).2.2)
-      | .httpReq .post _ _ => ((.webServer (codes ++ [none]) conn offer, .f, [(.session, .httpResp none)], p), none)
-      | .httpReq .other _ _ => ((.webServer (codes ++ [some 405]) conn offer, .f, [(.session, .httpResp (some 405))], p), none)
-      | _ => ((.webServer codes conn offer, .f, [], p), none) := by
+        ((.webServer (codes ++ [(webGet path conn db).1]) (webGet path conn db).2.1,
+          Ret.ofBool ((webGet path conn db).1 == 200), [(.session, .httpResp (webGet path conn db).1)], p),
+         (webGet path conn db).2.2)
+      | .httpReq _ _ _ => ((.webServer (codes ++ [405]) conn, .f, [(.session, .httpResp 405)], p), none)
+      | _ => ((.webServer codes conn, .f, [], p), none) := by
   cases p with
   | httpReq m path i => cases m <;> rfl
   | dns name r => cases r <;> rfl
@@ -783,10 +779,10 @@ theorem C13_web_server_receive (codes : List (Option Nat)) (conn offer : Option 
 /-- **Web browser, `receive`**: an HTTP response becomes `latest_response` (True); anything else is refused; history and the
 configured target are not touched by `receive`. -/
 theorem C13_web_browser_receive (latest : Option (Option Nat)) (hist : List (Nat × Option (Option Nat))) (tgt : Option Nat)
-    (now : Nat) (hasDb : Bool) (p : Payload) :
-    (Data.webBrowser latest hist tgt).receiveH true now hasDb p =
+    (now : Nat) (db : Option Bool) (p : Payload) :
+    (Data.webBrowser latest hist tgt).receiveH true now db p =
       match p with
-      | .httpResp code => ((.webBrowser (some code) hist tgt, .t, [], p), none)
+      | .httpResp code => ((.webBrowser (some (some code)) hist tgt, .t, [], p), none)
       | _ => ((.webBrowser latest hist tgt, .f, [], p), none) := by
   cases p with
   | dns name r => cases r <;> rfl
@@ -795,7 +791,7 @@ theorem C13_web_browser_receive (latest : Option (Option Nat)) (hist : List (Nat
 
 /-- a web server that is not RUNNING (or whose node is not ON) answers nothing, records nothing, writes no health; a browser
 that is not RUNNING keeps its `latest_response` (instances of `C13_receiveH_blocked`, stated for the two classes) -/
-theorem C13_web_not_running (d : Data) (now : Nat) (hasDb : Bool) (p : Payload) :
+theorem C13_web_not_running (d : Data) (now : Nat) (hasDb : Option Bool) (p : Payload) :
     d.receiveH false now hasDb p = ((d, .f, [], p), none) := rfl
 
 /-! ### two nodes: the transport keeps the running-guard, and a lookup / a time request end to end -/
@@ -1065,7 +1061,7 @@ frames accepted.  Then `get_webpage`:
   `(url, LOADED 404)`, the answer is False, the server's data is untouched. -/
 theorem C13_browse_end_to_end (w : World) (side : Side) (u dc v : Nat) (url : World.Url) (name : String) (ip : Nat)
     (latest : Option (Option Nat)) (hist : List (Nat × Option (Option Nat))) (tgt : Option Nat)
-    (cache : List (String × Nat)) (srv : Option Nat) (codes : List (Option Nat)) (conn offer : Option Bool)
+    (cache : List (String × Nat)) (srv : Option Nat) (codes : List Nat) (conn : Option Bool)
     (hbr : dget u (w.get side).data = some (.webBrowser latest hist tgt))
     (hact : (w.get side).n.handles u = true)
     (hhost : url.host = .name name)
@@ -1077,22 +1073,21 @@ theorem C13_browse_end_to_end (w : World) (side : Side) (u dc v : Nat) (url : Wo
     (hon : (w.get side.other).n.isOn = true)
     (hacc : (w.get side.other).n.frameAccepted (.tcp (url.port.getD 80)) false = true)
     (hpath : recvCalls (w.get side.other).n (url.port.getD 80) 1 false = [(v, false)])
-    (hsrv : dget v (w.get side.other).data = some (.webServer codes conn offer))
+    (hsrv : dget v (w.get side.other).data = some (.webServer codes conn))
     (hacc2 : (w.get side).n.frameAccepted (.tcp (url.port.getD 80)) false = true)
     (hpath2 : recvCalls (w.get side).n (url.port.getD 80) 1 false = [(u, false)]) :
-    let code := (webGet url.path conn offer (dhas "database-client" (w.get side.other).n.software)).1
+    let code := (webGet url.path conn (w.get side.other).dbVerdict).1
     ((w.get side.other).n.handles v = true →
       (w.browse side u (some url)).2 = .ret (code == 200) ∧
       dget u ((w.browse side u (some url)).1.get side).data =
         some (.webBrowser (some (some code)) (hist ++ [(url.id, some (some code))]) tgt) ∧
       dget v ((w.browse side u (some url)).1.get side.other).data =
-        some (.webServer (codes ++ [some code])
-          (webGet url.path conn offer (dhas "database-client" (w.get side.other).n.software)).2.1 offer)) ∧
+        some (.webServer (codes ++ [code]) (webGet url.path conn (w.get side.other).dbVerdict).2.1)) ∧
     ((w.get side.other).n.handles v = false →
       (w.browse side u (some url)).2 = .ret false ∧
       dget u ((w.browse side u (some url)).1.get side).data =
         some (.webBrowser (some (some 404)) (hist ++ [(url.id, some (some 404))]) tgt) ∧
-      dget v ((w.browse side u (some url)).1.get side.other).data = some (.webServer codes conn offer)) := by
+      dget v ((w.browse side u (some url)).1.get side.other).data = some (.webServer codes conn)) := by
   intro code
   have hon1 := handles_isOn _ _ hact
   subst hip
@@ -1147,11 +1142,11 @@ theorem recvAt_sends (nn : NetNode) (u port proto : Nat) (p : Payload) :
   cases hd : dget u nn.data with
   | none => simp
   | some d =>
-    obtain ⟨s1, s2, s3⟩ := C13_sends_are_replies d (nn.n.handles u) nn.now (dhas "database-client" nn.n.software) p
+    obtain ⟨s1, s2, s3⟩ := C13_sends_are_replies d (nn.n.handles u) nn.now nn.dbVerdict p
     simp only
     refine ⟨?_, by simpa using s2, ?_, s3⟩
     · intro hp
-      have := C13_reply_never_answered d (nn.n.handles u) nn.now (dhas "database-client" nn.n.software) p hp
+      have := C13_reply_never_answered d (nn.n.handles u) nn.now nn.dbVerdict p hp
       exact ⟨by rw [this.1]; rfl, this.2⟩
     · intro s hs
       simp only [List.mem_map] at hs
@@ -1617,13 +1612,22 @@ theorem C13_gen_method_bodies :
   ("IOSoftware.send", ["if not self._can_perform_action() { return False }", "return self.software_manager.send_payload_to_session_manager(payload=payload, dest_ip_address=dest_ip_address, dest_port=dest_port, ip_protocol=ip_protocol, session_id=session_id)"]),
   ("IOSoftware.receive", ["return self._can_perform_action()"]),
   ("HostNode.receive_frame", ["super().receive_frame(frame, from_network_interface)", "dst_port = None", "if frame.tcp { dst_port = frame.tcp.dst_port } else { if frame.udp { dst_port = frame.udp.dst_port } }", "can_accept_nmap = False", "if self.software_manager.software.get('nmap') { if self.software_manager.software['nmap'].operating_state == ApplicationOperatingState.RUNNING { can_accept_nmap = True } }", "accept_nmap = can_accept_nmap and frame.payload.__class__.__name__ == 'PortScanPayload'", "accept_frame = False", "if frame.icmp or dst_port in self.software_manager.get_open_ports() or accept_nmap { accept_frame = True }", "if accept_frame { self.session_manager.receive_frame(frame, from_network_interface) } else { pass }"]),
-  ("Router.check_send_frame_to_session_manager", ["dst_ip_address = frame.ip.dst_ip_address", "dst_port = None", "if frame.ip.protocol == PROTOCOL_LOOKUP['TCP'] { dst_port = frame.tcp.dst_port } else { if frame.ip.protocol == PROTOCOL_LOOKUP['UDP'] { dst_port = frame.udp.dst_port } }", "if self.ip_is_router_interface(dst_ip_address) and (frame.icmp or dst_port in self.software_manager.get_open_ports()) { return True }", "return False"])] := by
+  ("Router.check_send_frame_to_session_manager", ["dst_ip_address = frame.ip.dst_ip_address", "dst_port = None", "if frame.ip.protocol == PROTOCOL_LOOKUP['TCP'] { dst_port = frame.tcp.dst_port } else { if frame.ip.protocol == PROTOCOL_LOOKUP['UDP'] { dst_port = frame.udp.dst_port } }", "if self.ip_is_router_interface(dst_ip_address) and (frame.icmp or dst_port in self.software_manager.get_open_ports()) { return True }", "return False"]),
+  ("WebServer.receive", ["if not super().receive(payload=payload, session_id=session_id, **kwargs) { return False }", "if not isinstance(payload, HttpRequestPacket) { return False }", "return self._process_http_request(payload=payload, session_id=session_id)"]),
+  ("WebServer._process_http_request", ["response = HttpResponsePacket()", "if payload.request_method == HttpRequestMethod.GET { response = self._handle_get_request(payload=payload) } else { if payload.request_method == HttpRequestMethod.POST { response.status_code = HttpStatusCode.METHOD_NOT_ALLOWED } else { response.status_code = HttpStatusCode.METHOD_NOT_ALLOWED } }", "self.send(payload=response, session_id=session_id)", "self.response_codes_this_timestep.append(response.status_code)", "return response.status_code == HttpStatusCode.OK"]),
+  ("WebServer._handle_get_request", ["response = HttpResponsePacket(status_code=HttpStatusCode.NOT_FOUND, payload=payload)", "parsed_url = urlparse(payload.request_url)", "path = parsed_url.path.strip('/') if parsed_url and parsed_url.path else ''", "if len(path) < 1 { response.status_code = HttpStatusCode.OK }", "if path.startswith('users') { if not self._establish_db_connection() { response.status_code = HttpStatusCode.INTERNAL_SERVER_ERROR; return response }; if self.db_connection.query('SELECT') { self.set_health_state(SoftwareHealthState.GOOD); response.status_code = HttpStatusCode.OK } else { self.set_health_state(SoftwareHealthState.COMPROMISED) } }", "return response"]),
+  ("WebServer._establish_db_connection", ["if self.db_connection { return True }", "db_client = self.software_manager.software.get('database-client')", "if db_client is None { return False }", "self.db_connection: DatabaseClientConnection = db_client.get_new_connection()", "return self.db_connection is not None"]),
+  ("WebBrowser.receive", ["if not super().receive(payload=payload, session_id=session_id, **kwargs) { return False }", "if not isinstance(payload, HttpResponsePacket) { return False }", "self.latest_response = payload", "return True"]),
+  ("WebBrowser.get_webpage", ["url = url or self.config.target_url", "if not self._can_perform_action() { return False }", "self.num_executions += 1", "self.latest_response = HttpResponsePacket(status_code=HttpStatusCode.NOT_FOUND)", "if not url { return False }", "try { parsed_url = urlparse(url) } except Exception { return False }", "dns_client: DNSClient = self.software_manager.software.get('dns-client')", "domain_exists = dns_client.check_domain_exists(target_domain=parsed_url.hostname)", "if domain_exists { self.domain_name_ip_address = dns_client.dns_cache[parsed_url.hostname] } else { try { self.domain_name_ip_address = IPv4Address(parsed_url.hostname) } except Exception { return False } }", "payload = HttpRequestPacket(request_method=HttpRequestMethod.GET, request_url=url)", "if self.send(payload=payload, dest_ip_address=self.domain_name_ip_address, dest_port=parsed_url.port if parsed_url.port else PORT_LOOKUP['HTTP']) { self.history.append(WebBrowser.BrowserHistoryItem(url=url, status=self.BrowserHistoryItem._HistoryItemStatus.LOADED, response_code=self.latest_response.status_code)); return self.latest_response.status_code is HttpStatusCode.OK } else { self.history.append(WebBrowser.BrowserHistoryItem(url=url, status=self.BrowserHistoryItem._HistoryItemStatus.SERVER_UNREACHABLE)); return False }"])] := by
   rfl
 
 /-- well-known ports the end-to-end theorems use, the default capacity of `Conn`, and: no class overrides the connection
 bookkeeping of `IOSoftware` (so `Conn` is the bookkeeping of every shipped class) -/
 theorem C13_gen_recv_constants :
-    Gen.SoftwareRecv.portDNS = 53 ∧ Gen.SoftwareRecv.portNTP = 123 ∧
+    Gen.SoftwareRecv.portDNS = 53 ∧ Gen.SoftwareRecv.portNTP = 123 ∧ Gen.SoftwareRecv.portHTTP = 80 ∧
+    Gen.SoftwareRecv.httpStatusCodes.lookup "OK" = some 200 ∧ Gen.SoftwareRecv.httpStatusCodes.lookup "NOT_FOUND" = some 404 ∧
+    Gen.SoftwareRecv.httpStatusCodes.lookup "METHOD_NOT_ALLOWED" = some 405 ∧
+    Gen.SoftwareRecv.httpStatusCodes.lookup "INTERNAL_SERVER_ERROR" = some 500 ∧
     Gen.SoftwareRecv.maxSessionsDefault = ({} : Conn).maxSessions ∧
     Gen.SoftwareRecv.connectionOverrides = [] := by decide
 
